@@ -134,20 +134,31 @@ class _Proxy:
 
 
 class SchedWriter:
+    """A buffered binary writer as Python's is: the first half of the data reaches the file at once, the rest
+    stays in the user-space buffer until flush() / close() (a BufferedWriter keeps anything below its buffer size
+    until then).  The name the operations are attributed to follows a rename of the open file."""
+
     def __init__(self, ip, real, path):
         self._ip, self._real, self._path, self._closed = ip, real, path, False
+        self._pending = b""
+        ip.open_writers.append(self)
 
     def write(self, data):
         data = bytes(data)
         h = len(data) // 2
-        for kind, chunk in (("write1", data[:h]), ("write2", data[h:])):
-            self._ip.point(kind, (self._path,))
-            self._real.write(chunk)
-            self._real.flush()
-            self._ip.record(kind, (self._path,), 0)
+        self._ip.point("write1", (self._path,))
+        self._real.write(self._pending + data[:h])
+        self._pending = b""
+        self._real.flush()
+        self._ip.record("write1", (self._path,), 0)
+        self._ip.point("write2", (self._path,))
+        self._pending = data[h:]
+        self._ip.record("write2", (self._path,), 0)
         return len(data)
 
     def flush(self):
+        self._real.write(self._pending)
+        self._pending = b""
         self._real.flush()
 
     def close(self):
@@ -157,7 +168,13 @@ class SchedWriter:
         try:
             self._ip.point("close", (self._path,))
         finally:
-            self._real.close()
+            try:
+                self._real.write(self._pending)
+                self._pending = b""
+            finally:
+                self._real.close()
+                if self in self._ip.open_writers:
+                    self._ip.open_writers.remove(self)
         self._ip.record("close", (self._path,), 0)
 
     def __enter__(self):
@@ -220,6 +237,7 @@ class Interposer:
         self.M = M
         self.active = None
         self.saved = None
+        self.open_writers = []
 
     # ---- which calls are scheduling points
     def _sched(self, *paths):
@@ -282,6 +300,9 @@ class Interposer:
         except BaseException:
             s.record("rename", (src, dst), 1)
             raise
+        for w in list(self.open_writers):          # a file renamed while still open keeps being written to
+            if w._path == src:
+                w._path = dst
         s.record("rename", (src, dst), 0)
 
     def x_remove(self, path, **k):
@@ -318,6 +339,21 @@ class Interposer:
         s.record("list", (), len(names), raw=list(names))
         return names
 
+    def x_listdir(self, path="."):
+        """os.listdir of the results directory: a listing of every name in it."""
+        try:
+            d = os.path.abspath(os.fspath(path))
+        except TypeError:
+            return os.listdir(path)
+        s = self.active
+        a = getattr(threading.current_thread(), "_xv_actor", None)
+        if s is None or s.aborting or a is None or a.sched is not s or d != s.results_dir:
+            return os.listdir(path)
+        s.point(Op("list", (), pattern=os.path.join(d, "*")))
+        names = os.listdir(path)
+        s.record("list", (), len(names), raw=[os.path.join(d, n) for n in names])
+        return names
+
     def x_sleep(self, t):
         if getattr(threading.current_thread(), "_xv_actor", None) is not None:
             return None
@@ -336,7 +372,7 @@ class Interposer:
                             isfile=self._stat("isfile", os.path.isfile))
         M.open = self.x_open
         M.os = _Proxy(os, replace=self.x_replace, rename=self.x_replace, remove=self.x_remove,
-                      unlink=self.x_remove, path=path_proxy)
+                      unlink=self.x_remove, path=path_proxy, listdir=self.x_listdir)
         M.glob = _Proxy(_glob, glob=self.x_glob)
         M.time = _Proxy(_time, sleep=self.x_sleep)
         M.pickle = _Proxy(_pickle, dump=self.x_dump)
